@@ -18,7 +18,6 @@ def outEvents (o : CacheOut) : String := s!"evict={keysS o.evicted} expired={key
 def runCache (r : Report) (s : Section) : Report := Id.run do
   let limit := kvNat s.cfg "limit" 0
   let expire := kvNat s.cfg "expire" 0
-  let sub := kvNat s.cfg "subsecond" 0 = 1
   let firstObs := match s.lines.head? with | some l => l.obs | none => []
   let interval := kvNat firstObs "interval" 0
   let slots := kvNat firstObs "slots" 0
@@ -35,7 +34,7 @@ def runCache (r : Report) (s : Section) : Report := Id.run do
     let ns := kvNat obs "ns" 0
     let judge := fun (r : Report) (m sp : String) =>
       let r := if m ≠ impl then r.mismatch s.idx l.idx m impl else r
-      if sp ≠ impl ∧ ¬ sub then r.violation s.idx l.idx s!"struct=cache op=[{joinSp l.op}] spec=[{sp}] impl=[{impl}]" else r
+      if sp ≠ impl then r.violation s.idx l.idx s!"struct=cache op=[{joinSp l.op}] spec=[{sp}] impl=[{impl}]" else r
     let jitter := fun (r : Report) (base : Nat) =>
       -- [0.95, 1.05]·base, ±1 ns for the float64 product
       let r := if 20 * ns + 20 < 19 * base ∨ 20 * ns > 21 * base + 20 then
